@@ -166,8 +166,9 @@ func (w *World) routerVC(rt *routerType, prop string) (res *FuncResult) {
 		vc.declare(n, sBV64)
 		msg.L = append(msg.L, n)
 	}
-	vc.assume("true", and(not(eq(msg.L[iObj], bvLit(64, 0))), app("bvult", msg.L[iObj], "alloc0"), eq(msg.L[iFld], allOnes64), eq(msg.L[iIdx], allOnes64),
-		eq(msg.L[iCls], bvLit(64, clsStruct)), app("bvult", msg.L[iMt], bvLit(64, 0xFF00))))
+	// a whole message: no field, no element index, class struct (as literals, so that every query sees them)
+	msg.L[iFld], msg.L[iIdx], msg.L[iCls] = allOnes64, allOnes64, bvLit(64, clsStruct)
+	vc.assume("true", and(not(eq(msg.L[iObj], bvLit(64, 0))), app("bvult", msg.L[iObj], "alloc0"), app("bvult", msg.L[iMt], bvLit(64, 0xFF00))))
 	vc.assumeWellFormed(st, msg)
 	vc.entry = st.clone()
 	fr.vals[fn.Params[0]] = recv
